@@ -11,6 +11,7 @@ import (
 	"github.com/oxia-db/oxia/common/concurrent"
 	"github.com/oxia-db/oxia/common/vhook"
 	"github.com/oxia-db/oxia/proto"
+	"github.com/oxia-db/oxia/server/kv"
 
 	"verif/lib/core"
 	rc "verif/lib/replcluster"
@@ -78,6 +79,13 @@ func runC07Followers(tier string, seed uint64, idx int) core.Result {
 		last[args[0]] = off
 		mc := maxCommit
 		mu.Unlock()
+		if !seen {
+			if k, ok := args[0].(kv.KV); ok {
+				if stored, ok2 := storedCommitOffset(k); ok2 {
+					prev, seen = stored, true
+				}
+			}
+		}
 		r.Count("apply_events", 1)
 		if seen && off != prev+1 {
 			kind := "skipped"
